@@ -1,4 +1,5 @@
 """C12 Model counting: cache-validity clause"""
+import substrate
 import eevent
 import epost
 import eunits
@@ -38,5 +39,6 @@ def run(ctx):
                 "u128::try_from (reviewed); every consumer of the top digit goes through mantissa().")
     n = ecarry.check_raw_view(ctx, F)
     ctx.floor("E-NUM.rawview", "functions reading the raw digit view", n, 2)
+    substrate.run(ctx, F, dm=True)
     ctx.not_decided = ("exactness of the number types beyond the carry chain (shifts, comparisons, conversions, textual "
                        "output), the scaling by 2^vars around the recursion")
